@@ -1,3 +1,117 @@
-(* C04 — placeholder replaced below once MgmtProofs is in place *)
-From Coq Require Import List.
-From PyCasbin Require Import Base Mgmt.
+(* C20 — every successful policy change notifies the watcher exactly once. *)
+From Coq Require Import List NArith Bool.
+From PyCasbin Require Import Base Effect Policy PolicyProofs RoleGraph Mgmt MgmtProofs CallsProofs.
+Import ListNotations.
+Local Open Scope N_scope.
+
+(* a notification is exactly one call: the operation's own callback with the operation's own arguments
+   if the watcher offers it (watcher kind >= the kind that introduces the callback), else update();
+   none at all without a watcher or with auto-notify off *)
+Theorem C20_notification_shape : forall k s c from,
+  notify k s c from = if notifying k s then [if from <=? k_watcher k then c else WUpdate] else [].
+Proof. exact notify_spec. Qed.
+Print Assumptions C20_notification_shape.
+
+Theorem C20_at_most_one : forall k s c from, length (notify k s c from) = if notifying k s then 1%nat else 0%nat.
+Proof. exact notify_length. Qed.
+Print Assumptions C20_at_most_one.
+
+(* per operation: notified iff the call reports success (and an adapter is attached with auto-save on),
+   together with — i.e. after — the adapter call; a failed / no-op call notifies nobody *)
+Theorem C20_add : forall k s r,
+  let out := snd (step k s (OAdd PT_P r)) in
+  let changed := negb (has_policy (m_p s) r) in
+  o_val out = ok (vbool changed)
+  /\ (o_acalls out, o_wcalls out) = calls_if changed (use_adapter k s) (AAdd PT_P r) (notify k s (WAdd PT_P r) 2).
+Proof. exact step_add_p. Qed.
+Print Assumptions C20_add.
+
+Theorem C20_remove : forall k s r, NoDup (m_p s) ->
+  let out := snd (step k s (ORemove PT_P r)) in
+  let changed := has_policy (m_p s) r in
+  o_val out = ok (vbool changed)
+  /\ (o_acalls out, o_wcalls out) = calls_if changed (use_adapter k s) (ARemove PT_P r) (notify k s (WRemove PT_P r) 2).
+Proof. exact step_remove_p. Qed.
+Print Assumptions C20_remove.
+
+Theorem C20_add_many : forall k s rs,
+  let out := snd (step k s (OAddMany PT_P rs)) in
+  let changed := batch_addable (m_p s) [] rs in
+  o_val out = ok (vbool changed)
+  /\ (o_acalls out, o_wcalls out) = calls_if changed (use_adapter k s) (AAddMany PT_P rs) (notify k s (WAddMany PT_P rs) 2).
+Proof. exact step_add_many_p. Qed.
+Print Assumptions C20_add_many.
+
+Theorem C20_remove_many : forall k s rs, NoDup (m_p s) ->
+  let out := snd (step k s (ORemoveMany PT_P rs)) in
+  let changed := forallb (has_policy (m_p s)) rs && nodupb rule_eqb rs in
+  o_val out = ok (vbool changed)
+  /\ (o_acalls out, o_wcalls out) = calls_if changed (use_adapter k s) (ARemoveMany PT_P rs) (notify k s (WRemoveMany PT_P rs) 2).
+Proof. exact step_remove_many_p. Qed.
+Print Assumptions C20_remove_many.
+
+Theorem C20_update : forall k s o n, NoDup (m_p s) -> k_prio k = false ->
+  let out := snd (step k s (OUpdate o n)) in
+  let changed := has_policy (m_p s) o && negb (has_policy (m_p s) n) in
+  o_val out = ok (vbool changed)
+  /\ (o_acalls out, o_wcalls out) = calls_if changed (use_adapter k s) (AUpdate PT_P o n) (notify k s (WUpdatePolicy o n) 3).
+Proof. exact step_update_p. Qed.
+Print Assumptions C20_update.
+
+(* internal layer, any policy type (role assignments included) *)
+Theorem C20_internal_add : forall k s pt r,
+  let x := i_add k s pt r in let changed := snd (fst (fst x)) in
+  (snd (fst x), snd x) = calls_if changed (use_adapter k s) (AAdd pt r) (notify k s (WAdd pt r) 2).
+Proof. exact i_add_calls. Qed.
+Print Assumptions C20_internal_add.
+
+Theorem C20_internal_remove_filtered : forall k s pt i vs x,
+  i_remove_filtered k s pt i vs = Ok x ->
+  let changed := snd (fst (fst x)) in
+  (snd (fst x), snd x) = calls_if changed (use_adapter k s) (ARemoveFiltered pt i vs)
+                                  (notify k s (WRemoveFiltered pt i vs) 2).
+Proof. exact i_remove_filtered_calls. Qed.
+Print Assumptions C20_internal_remove_filtered.
+
+Theorem C20_internal_remove_filtered_grouping : forall k s pt i vs x,
+  i_remove_filtered_eff k s pt i vs = Ok x ->
+  let gone := snd (fst (fst x)) in
+  (snd (fst x), snd x) = calls_if (negb (match gone with [] => true | _ => false end)) (use_adapter k s)
+                                  (ARemoveFiltered pt i vs) (notify k s (WRemoveFiltered pt i vs) 2).
+Proof. exact i_remove_filtered_eff_calls. Qed.
+Print Assumptions C20_internal_remove_filtered_grouping.
+
+Theorem C20_grouping_calls_notify_the_same : forall k s pt r,
+  let out := snd (g_add k s pt r) in let x := i_add k s pt r in
+  o_acalls out = snd (fst x) /\ o_wcalls out = snd x.
+Proof. exact g_add_calls. Qed.
+Print Assumptions C20_grouping_calls_notify_the_same.
+
+(* save_policy notifies exactly once whenever a watcher is set *)
+Theorem C20_save_notifies_once : forall k s, k_adapter k = true ->
+  let out := snd (step k s OSave) in
+  o_acalls out = [ASave (all_rows k s)]
+  /\ o_wcalls out = if 0 <? k_watcher k then [if 2 <=? k_watcher k then WSave else WUpdate] else [].
+Proof. exact step_save. Qed.
+Print Assumptions C20_save_notifies_once.
+
+(* calls that change no policy notify nobody *)
+Theorem C20_other_calls_are_silent : forall k s o,
+  match o with
+  | QEnforce _ | QEnforceEx _ | QPolicy _ | QFiltered _ _ _ | QHas _ _ | QRoles _ | QUsers _
+  | QRolesDom _ _ | QUsersDom _ _ | QAllSubjects | QAllObjects | QAllActions | QAllRoles
+  | QPermsForUser _ | QPermsForUserDom _ _ | OAutoSave _ | OAutoBuild _ | OAutoNotify _ | OEnable _ | OClear => True
+  | _ => False
+  end -> o_acalls (snd (step k s o)) = [] /\ o_wcalls (snd (step k s o)) = [].
+Proof. exact silent_calls. Qed.
+Print Assumptions C20_other_calls_are_silent.
+
+(* non-vacuity: an updatable extended watcher; add (specific), duplicate add (none), update (specific),
+   auto-notify off + remove (none), save (once) *)
+Definition k_w3 : mkind := mkKind false false false false false AO true 3.
+Example C20_example :
+  map (fun o => o_wcalls o)
+      (snd (run k_w3 (init k_w3 []) [OAdd 0 [1;2;3]; OAdd 0 [1;2;3]; OUpdate [1;2;3] [4;5;6];
+                                     OAutoNotify false; ORemove 0 [4;5;6]; OSave]))
+  = [[WAdd 0 [1;2;3]]; []; [WUpdatePolicy [1;2;3] [4;5;6]]; []; []; [WSave]].
+Proof. vm_compute. reflexivity. Qed.
